@@ -1,15 +1,15 @@
 package main
 
 import (
-	"golang.org/x/tools/go/types/typeutil"
-	"os"
-	"regexp"
 	"fmt"
 	"go/ast"
 	"go/parser"
 	"go/token"
-	"slices"
 	"go/types"
+	"golang.org/x/tools/go/types/typeutil"
+	"os"
+	"regexp"
+	"slices"
 	"sort"
 	"strings"
 )
@@ -336,7 +336,9 @@ func commonSubstr(a, b string) int {
 // replaceIdent replaces whole-identifier occurrences of from (not selector fields) in a Go expression text.
 func replaceIdent(src, from, to string) string {
 	var b strings.Builder
-	isId := func(c byte) bool { return c == '_' || c >= '0' && c <= '9' || c >= 'a' && c <= 'z' || c >= 'A' && c <= 'Z' }
+	isId := func(c byte) bool {
+		return c == '_' || c >= '0' && c <= '9' || c >= 'a' && c <= 'z' || c >= 'A' && c <= 'Z'
+	}
 	i := 0
 	for i < len(src) {
 		c := src[i]
@@ -486,12 +488,12 @@ func (fv *FuncVerifier) evalClauseFor(fi *FuncInfo, st *State, cl *Clause, binds
 type specDef struct {
 	recursive  bool
 	inProgress bool
-	name     string
-	heapKeys []string
-	heapSort map[string]Sort
-	res      Sort
-	ok       bool
-	err      string
+	name       string
+	heapKeys   []string
+	heapSort   map[string]Sort
+	res        Sort
+	ok         bool
+	err        string
 }
 
 var specDefs = map[*types.Func]*specDef{}
@@ -776,15 +778,15 @@ func (s *State) cloneShared() *State {
 // ---- function-level driver ----
 
 type FuncResult struct {
-	Fn         *FuncInfo
-	Obls       []*Obligation
-	Notes      []string
-	Dropped    []string
-	Externs    []string
-	Callees    []string
-	BindErrors []string
+	Fn           *FuncInfo
+	Obls         []*Obligation
+	Notes        []string
+	Dropped      []string
+	Externs      []string
+	Callees      []string
+	BindErrors   []string
 	GlobalWrites []string
-	Abstracted bool
+	Abstracted   bool
 }
 
 func numberLoopsAndLits(fd *ast.FuncDecl) (map[ast.Stmt]int, map[*ast.FuncLit]int) {
@@ -1742,6 +1744,9 @@ func (fv *FuncVerifier) frameObligations(s2 *State, site token.Pos) {
 			continue
 		}
 		if strings.HasPrefix(k, "$global:") {
+			if gn := k[strings.LastIndex(k, ".")+1:]; paramTargets[gn] {
+				continue // a package-level variable named in assigns
+			}
 			mk(k, App(SBool, "=", hf, h0), "package-level variable "+strings.TrimPrefix(k, "$global:")+" is unchanged (not named in assigns)")
 			continue
 		}
